@@ -16,7 +16,7 @@ def build(tier):
     quick = tier == "quick"
     L = 2 if quick else 3
     t = 300 if quick else 1800
-    single = ["id", "unq", "unq_esc", "quo", "quo_esc", "quo_empty", "bra", "ref"]
+    single = ["id", "unq", "unq_esc", "quo", "quo_esc", "quo_nl", "quo_empty", "bra", "ref"]
     obs = [ob("set", [], L, timeout=t)] + [ob("set", [c], L, timeout=t) for c in single]
     lists = [["id", "quo"], ["quo", "quo"], ["unq_esc", "bra"], ["ref", "id", "quo_esc"]] if quick else \
             [[a, b] for a in single for b in ("id", "quo", "unq_esc")] + [["ref", "id", "quo_esc"], ["quo", "quo", "quo"], ["bra", "unq", "quo_empty"]]
